@@ -101,7 +101,7 @@ def encode (c : Cmd) (env : Env) : Option Bytes := do
     emitted under a condition and nothing goes ahead of the parameter block -/
 def loopsOnly : List MStmt → Bool
   | [] => true
-  | .ifNonZero _ _ :: _ | .ifNonZeroArr _ _ :: _ | .ifWordCount _ _ :: _ | .subHead _ _ :: _ => false
+  | .ifNonZero _ _ :: _ | .ifNonZeroArr _ _ :: _ | .ifWordCount _ _ :: _ | .subHead _ _ :: _ | .zeros _ _ :: _ => false
   | _ :: r => loopsOnly r
 
 /-- the same rules for the structures whose `Marshal` loops over a list field: an array is the concatenation of its
